@@ -38,10 +38,17 @@ fn classify(entry: &EntryD, cfg: &CfgD) -> &'static str {
 }
 
 fn check(st: &mut St, cfg: &CfgD, pristine: &Emf, entry: &EntryD) {
-    st.cases += 1;
     let mut out = std::mem::take(&mut st.out);
     let outcome = run_fresh(pristine, cfg.mult, entry, &mut out);
-    let replay = || json!({"config": cfg.to_json(), "entry": entry.to_json()});
+    judge(st, cfg, entry, outcome, out, "");
+}
+
+/// `after`: empty for a fresh formatter, else what the long-lived formatter had formatted before
+fn judge(st: &mut St, cfg: &CfgD, entry: &EntryD, outcome: Outcome, out: Vec<u8>, after: &str) {
+    st.cases += 1;
+    let small = |e: &EntryD| if e.ops.iter().any(|o| matches!(o, OpD::Value(_, ValD::Metric { obs, .. }) if obs.len() > 100)) { json!("huge (see gen_::huge_obs)") } else { e.to_json() };
+    let replay = || if after.is_empty() { json!({"config": cfg.to_json(), "entry": small(entry)}) } else { json!({"config": cfg.to_json(), "entry": small(entry), "on_a_long_lived_formatter_after": after}) };
+    let after_key = if after.is_empty() { "" } else { ":after-huge-entry" };
     match &outcome {
         Outcome::Ok => {
             st.ok += 1;
@@ -74,7 +81,7 @@ fn check(st: &mut St, cfg: &CfgD, pristine: &Emf, entry: &EntryD) {
                     let class = classify(entry, cfg);
                     let kind = msg.split(':').next().unwrap_or("").replace(' ', "-");
                     st.v.add(
-                        format!("bad-output:{kind}:{class}"),
+                        format!("bad-output:{kind}:{class}{after_key}"),
                         format!("formatter reported success but the output is malformed: {msg}"),
                         replay(),
                     );
@@ -85,7 +92,7 @@ fn check(st: &mut St, cfg: &CfgD, pristine: &Emf, entry: &EntryD) {
             st.rejected += 1;
             if !out.is_empty() {
                 st.v.add(
-                    "bytes-written-on-validation-error",
+                    format!("bytes-written-on-validation-error{after_key}"),
                     format!("validation error reported but {} bytes were written", out.len()),
                     replay(),
                 );
@@ -209,6 +216,30 @@ fn main() {
         }
     }
     states.push(st);
+    // 4. the base entries on a long-lived formatter that has just formatted an entry whose metric
+    //    text exceeds 1 MiB (buffer shrinking must keep every constant prefix)
+    let mut st = St::default();
+    let mut after_huge = 0u64;
+    for cfg in &cfgs {
+        let huge = build_entry(cfg, frame_minimal(), vec![(s("H"), ValD::Metric { obs: huge_obs(), unit: UnitD::None, dims: vec![], flag: FlagD::None })]);
+        let huge_split = build_entry(cfg, frame_minimal(), vec![(s("H"), ValD::Metric { obs: huge_obs(), unit: UnitD::None, dims: vec![(s("k"), s("v"))], flag: FlagD::None })]);
+        for big in [&huge, &huge_split] {
+            let mut r = Runner::new(cfg);
+            let mut out = Vec::new();
+            let o = r.format(big, &mut out);
+            judge(&mut st, cfg, big, o, out, "");
+            for frame in frames(tier) {
+                for values in vh_seq::emfx::mutate::base_value_sets() {
+                    let entry = build_entry(cfg, frame, values);
+                    let mut out = Vec::new();
+                    let o = r.format(&entry, &mut out);
+                    judge(&mut st, cfg, &entry, o, out, "an entry with 1.2 MB of metric text");
+                    after_huge += 1;
+                }
+            }
+        }
+    }
+    states.push(st);
 
     let mut shapes = BTreeSet::new();
     let (mut cases, mut ok, mut rejected, mut lines, mut bytes, mut multi) = (0, 0, 0, 0, 0, 0);
@@ -229,6 +260,7 @@ fn main() {
     rep.set("multi_record_outputs", multi);
     rep.set("unicode_scalar_cases", uni_cases);
     rep.set("config_string_cases", cfg_cases);
+    rep.set("cases_after_a_huge_entry_on_one_formatter", after_huge);
     rep.set("layers", layer_sizes);
     rep.set("configurations", configs(tier).len() as u64);
     rep.assume("oracle = own strict RFC 8259 parser (vh-common/src/json.rs), independent of serde_json");
